@@ -43,6 +43,43 @@ class Gen:
                             3 if q in ("inv_quad_logdet", "logdet", "solve", "samples", "preconditioner", "svd") else 1) for q in self.queries}
         self.focus = None
         self.p_focus = rng.choice([0.5, 0.7, 0.9])
+        # themed runs (correlated swarm subsets): a uniformly random subset rarely contains the *combination* a stateful
+        # mechanism needs (class with an ad-hoc cache + the settings that select it + the queries that read it)
+        self.theme = None
+        self._theme_flippable = None
+        self._theme_initial = None
+        if rng.random() < 0.4:
+            self.theme = rng.choice(["precond", "roots", "derive", "lazy"])
+            if self.theme == "precond":
+                self.recipes = rng.sample(["AddedDiag", "AddedDiag", "KroneckerAddedDiag", "LowRankRootAddedDiag", "Dense", "Toeplitz", "Root"], 3) + ["AddedDiag"]
+                self.queries = ["logdet", "inv_quad_logdet", "preconditioner", "solve", "inv_quad"] + rng.sample(world.PSD_QUERIES, 2)
+                self.derives = rng.sample(["add_jitter", "add_diagonal", "mul_scalar", "getitem", "expand", "clone", "add_op"], 3)
+                self._theme_flippable = ["max_preconditioner_size", "max_preconditioner_size", "max_preconditioner_size", "max_preconditioner_size",
+                                         "min_preconditioning_size", "max_cholesky_size", "fast_log_prob", "fast_solves", "preconditioner_tolerance",
+                                         "num_trace_samples", "deterministic_probes"]
+                self.focus_classes = ("AddedDiagLinearOperator", "KroneckerProductAddedDiagLinearOperator", "LowRankRootAddedDiagLinearOperator")
+                self.steps = rng.randint(8, 14)
+                self._theme_initial = [("max_cholesky_size", 0), ("min_preconditioning_size", 0), ("cg_tolerance", 1e-9),
+                                       ("max_preconditioner_size", rng.choice([2, 3, 15]))]
+            elif self.theme == "roots":
+                self.queries = ["root_decomposition", "root_inv_decomposition", "diagonalization", "cholesky", "samples", "svd",
+                                "inv_quad_logdet", "eigh"] + rng.sample(world.PSD_QUERIES, 2)
+                self.derives = ["add_low_rank", "cat_rows"] + rng.sample(ALL_DERIVES, 2)
+                self._theme_flippable = ["max_cholesky_size", "max_root_decomposition_size", "fast_root", "fast_log_prob", "tridiagonal_jitter", "ciq_samples"]
+            elif self.theme == "derive":
+                self.queries = ["cholesky", "root_decomposition", "root_inv_decomposition", "logdet", "solve", "diagonalization", "to_dense",
+                                "diagonal", "svd", "inv_quad_logdet"]
+                self.derives = ["getitem", "getitem", "mT", "mul_scalar", "expand", "repeat", "unsqueeze", "add_jitter", "add_diagonal", "div_scalar",
+                                "clone", "detach"]
+            else:  # lazily evaluated / memoising classes
+                self.recipes = rng.sample(["Kernel", "Kernel", "Interpolated", "BatchRepeat", "Kronecker", "SumKronecker", "KroneckerAddedDiag",
+                                           "Masked", "BlockDiag", "Mul"], 4)
+                self.queries = rng.sample(world.PSD_QUERIES, 6) + ["to_dense", "diagonal", "matmul"]
+                self.derives = ["getitem", "mT", "evaluate_kernel", "rebuild_repr", "add_jitter", "mul_scalar", "expand"]
+            self.qweight = {q: self.qweight.get(q, 2) for q in self.queries}
+            if self.theme == "precond":
+                self.qweight.update({"preconditioner": 6, "logdet": 4, "inv_quad_logdet": 4})
+            self.p_focus = 0.9
         self.fault_kinds = [] if rng.random() < 0.5 else rng.sample(FAULT_KINDS, rng.randint(1, 3))
         if "cb" in self.fault_kinds and not ({"User", "Kernel"} & set(self.recipes)):
             self.recipes.append(rng.choice(["User", "Kernel"]))  # F1 needs a party with a callback
@@ -63,8 +100,8 @@ class Gen:
         N = n * 2
         return {
             "max_cholesky_size": [0, n - 1, n, 800, 800],
-            "max_root_decomposition_size": [100, 100, N + 4, 3, 2],
-            "max_cg_iterations": [1000, 1000, 3 * N + 10, 3],
+            "max_root_decomposition_size": [100, 100, 100, N + 4, N + 4, 3, 2],
+            "max_cg_iterations": [1000, 3 * N + 24, 3 * N + 24, 3],
             "max_lanczos_quadrature_iterations": [20, 20, 3, N + 2],
             "num_trace_samples": [10, 10, 1, 40],
             "max_preconditioner_size": [15, 15, 0, 2, 3],
@@ -100,9 +137,22 @@ class Gen:
                 out.append({"k": "set", "name": "min_preconditioning_size", "value": 0})
             if rng.random() < 0.7:
                 out.append({"k": "set", "name": "cg_tolerance", "value": rng.choice([1e-3, 1e-9])})
-        self.flippable = rng.sample(self.FLIPPABLE, rng.randint(2, 7))
-        for name in rng.sample(self.flippable, rng.randint(0, min(3, len(self.flippable)))):
-            out.append({"k": "set", "name": name, "value": rng.choice(self.setting_domain(name))})
+        if self._theme_initial:
+            out = [{"k": "set", "name": n_, "value": v_} for n_, v_ in self._theme_initial]
+        if any(o["name"] == "cg_tolerance" and o["value"] < 1e-2 for o in out):
+            # a tolerance that float arithmetic cannot reach would make CG spin for the default 1000 iterations on a 12 x 12 matrix
+            out.append({"k": "set", "name": "max_cg_iterations", "value": 4 * self.n + 24})
+        heavy = ["max_cholesky_size", "max_preconditioner_size", "min_preconditioning_size", "max_root_decomposition_size", "fast_root",
+                 "fast_log_prob", "fast_solves", "max_lanczos_quadrature_iterations"]
+        self.flippable = list(dict.fromkeys(rng.sample(heavy, rng.randint(1, 4)) + rng.sample(self.FLIPPABLE, rng.randint(1, 4))))
+        if self._theme_flippable:
+            self.flippable = list(self._theme_flippable)
+        else:
+            for name in rng.sample(self.flippable, rng.randint(0, min(3, len(self.flippable)))):
+                out.append({"k": "set", "name": name, "value": rng.choice(self.setting_domain(name))})
+        self._set_hist = {}
+        for o in out:
+            self._set_hist.setdefault(o["name"], []).append(o["value"])
         return out
 
     # ------------------------------------------------------------------------------------------ tensors
@@ -399,6 +449,11 @@ class Gen:
             return None
         ids = list(w.objs)
         psd_ids = [o for o in ids if w.objs[o].psd]
+        fc = getattr(self, "focus_classes", None)
+        if fc and (self.focus not in w.objs or w.objs[self.focus].cls not in fc):
+            pref = [o for o in psd_ids if w.objs[o].cls in fc]
+            if pref:
+                self.focus = rng.choice(pref)
         if self.focus not in w.objs or rng.random() < 0.08:
             self.focus = rng.choice(psd_ids or ids)
         # bias: the focus object and the operators derived from it / sharing sub-operators with it
@@ -417,7 +472,9 @@ class Gen:
             ops.append(o)
             return t
 
-        if self.last_query and rng.random() < self.p_same_query_again and self.last_query[0] in w.objs:
+        p_again = 0.6 if getattr(self, "after_set", False) else self.p_same_query_again
+        self.after_set = False
+        if self.last_query and rng.random() < p_again and self.last_query[0] in w.objs:
             oid = self.last_query[0]
             r = w.objs[oid]
             qname = self.last_query[1]
@@ -500,9 +557,28 @@ class Gen:
         return ops
 
     def set_op(self):
+        """Settings flips are biased towards oscillation (A -> B -> A on the same setting), because caches that are keyed or
+        selected by a setting are only exercised when a value comes back."""
         rng = self.rng
-        name = rng.choice(self.flippable)
-        return [{"k": "set", "name": name, "value": rng.choice(self.setting_domain(name))}]
+        hist = getattr(self, "_set_hist", None)
+        if hist is None:
+            hist = self._set_hist = {}
+        last = getattr(self, "_last_set", None)
+        if last is not None and rng.random() < 0.5:
+            name = last
+        else:
+            name = rng.choice(self.flippable)
+        dom = self.setting_domain(name)
+        prev = hist.get(name, [])
+        if len(prev) >= 2 and rng.random() < 0.6:
+            value = prev[-2]  # go back to the value before the last flip
+        else:
+            cands = [v for v in dom if not prev or v != prev[-1]] or dom
+            value = rng.choice(cands)
+        hist.setdefault(name, []).append(value)
+        self._last_set = name
+        self.after_set = True
+        return [{"k": "set", "name": name, "value": value}]
 
     # ------------------------------------------------------------------------------------------ main
     def next_ops(self, w, step):
